@@ -194,10 +194,12 @@ namespace occa {
             variable = ((rightUnaryOpNode*) exprSmnt.expr)->value;
           }
           // Build source code
+          // atomicInc/atomicDec take a wrap-around bound and only exist for
+          // unsigned int; ++/-- are an atomic add/subtract of 1
           if (opType & operatorType::increment) {
-            pout << "atomicInc(&" << expr::parens(variable) << ");";
+            pout << "atomicAdd(&" << expr::parens(variable) << ", 1);";
           } else if (opType & operatorType::decrement) {
-            pout << "atomicDec(&" << expr::parens(variable) << ");";
+            pout << "atomicSub(&" << expr::parens(variable) << ", 1);";
           } else {
             exprSmnt.printError("Unable to transform @atomic code");
             return false;
